@@ -413,14 +413,32 @@ pub fn make_faulty(rng: &mut Rng, m: &Model, ctx: &[String], u: &Unit, kind: u8)
                 let full = full_header(ctx, u);
                 // the variants that depend on what the header resolves to are only used
                 // for a unit that starts at the root (first unit of its message)
-                let variants = if ctx.is_empty() && !u.colon { 5 } else { 2 };
-                match rng.below(variants) {
+                let variants = if ctx.is_empty() && !u.colon { 7 } else { 2 };
+                match rng.below(variants).min(4) {
                     4 => {
                         // a leaf that is declared elsewhere in the tree, grafted below this
                         // header's directory where it is not declared (misplaced level)
                         let mut dir = full.clone();
                         dir.pop();
                         let mut leaves: Vec<&str> = m.spelled.iter().filter(|s| !m.decl(s.decl).is_common()).filter_map(|s| s.path.last().copied()).collect();
+                        // half of the time: a leaf of a SIBLING directory (same parent, other
+                        // name), the likeliest thing a confused lookup would graft on
+                        if rng.chance(1, 2) && !dir.is_empty() {
+                            let sib: Vec<&str> = m
+                                .spelled
+                                .iter()
+                                .filter(|s| {
+                                    !m.decl(s.decl).is_common()
+                                        && s.path.len() == dir.len() + 1
+                                        && s.path[..dir.len() - 1].iter().zip(&dir[..dir.len() - 1]).all(|(a, b)| a.eq_ignore_ascii_case(b))
+                                        && !s.path[dir.len() - 1].eq_ignore_ascii_case(&dir[dir.len() - 1])
+                                })
+                                .filter_map(|s| s.path.last().copied())
+                                .collect();
+                            if !sib.is_empty() {
+                                leaves = sib;
+                            }
+                        }
                         leaves.sort();
                         leaves.dedup();
                         let leaf = *rng.pick(&leaves);
